@@ -159,8 +159,26 @@ func okReturn(t reflect.Type) bool {
 		return okReturn(t.Elem()) && t.Elem().Kind() != reflect.Slice
 	case reflect.Struct:
 		return strings.Contains(t.String(), "gedcom.Date") || t.String() == "gedcom.Tag"
+	case reflect.Interface:
+		return t == nodeT
 	}
 	return false
+}
+
+var nodeT = reflect.TypeOf((*gedcom.Node)(nil)).Elem()
+var nodesT = reflect.TypeOf(gedcom.Nodes{})
+
+// the type of the nodes a tag path ends in (what NodesWithTagPath hands out is typed gedcom.Nodes; the elements are these)
+func tagType(tag string) reflect.Type {
+	switch tag {
+	case "DATE":
+		return reflect.TypeOf(&gedcom.DateNode{})
+	case "NAME":
+		return reflect.TypeOf(&gedcom.NameNode{})
+	case "PLAC":
+		return reflect.TypeOf(&gedcom.PlaceNode{})
+	}
+	return nodeT
 }
 
 type method struct {
@@ -175,8 +193,12 @@ func accessorsOf(t reflect.Type) []method {
 		return m
 	}
 	pt := t
-	if t.Kind() != reflect.Ptr {
+	if t.Kind() != reflect.Ptr && t.Kind() != reflect.Interface {
 		pt = reflect.PtrTo(t)
+	}
+	recv := 1
+	if pt.Kind() == reflect.Interface {
+		recv = 0 // the methods of an interface type have no receiver argument
 	}
 	out := []method{}
 	for i := 0; i < pt.NumMethod(); i++ {
@@ -185,7 +207,7 @@ func accessorsOf(t reflect.Type) []method {
 			strings.HasPrefix(m.Name, "Merge") || strings.HasPrefix(m.Name, "Remove") {
 			continue
 		}
-		if m.Type.NumIn() != 1 || m.Type.NumOut() < 1 || !okReturn(m.Type.Out(0)) {
+		if m.Type.NumIn() != recv || m.Type.NumOut() < 1 || !okReturn(m.Type.Out(0)) {
 			continue
 		}
 		out = append(out, method{m.Name, m.Type.Out(0)})
@@ -312,6 +334,16 @@ func (g *gen) statement(t reflect.Type, depth int) (*Stmt, reflect.Type) {
 			es, nt := g.chain(t, 1+g.rng.Intn(2), false)
 			st.Es = append(st.Es, es...)
 			t = nt
+		case k < 7 && !nested(t) && elemType(t).Implements(nodeT) && g.rng.Intn(2) == 0:
+			// tag-path lookup below the node(s): the result is one flat list
+			paths := [][]string{{"BIRT", "DATE"}, {"DEAT", "DATE"}, {"NAME"}, {"BIRT", "PLAC"}, {"BIRT"}, {"SEX"}, {"OCCU"}, {"MARR", "DATE"}, {"HUSB"}, {"CHIL"}, {"NOTE"}, {"TITL"}}
+			path := paths[g.rng.Intn(len(paths))]
+			quoted := []string{}
+			for _, tg := range path {
+				quoted = append(quoted, quote(tg))
+			}
+			st.Es = append(st.Es, &Expr{K: "call", F: "NodesWithTagPath", Path: strings.Join(quoted, "/")})
+			t = reflect.SliceOf(tagType(path[len(path)-1]))
 		case k < 8:
 			f := []string{"First", "Last"}[g.rng.Intn(2)]
 			arg := &Stmt{Es: []*Expr{g.numConst(t)}}
@@ -504,10 +536,7 @@ func facts(x *ids, docs []*gedcom.Document, stmts []*Stmt, depth int) []Fact {
 					for _, t := range strings.Split(p, "/") {
 						tags = append(tags, gedcom.TagFromString(strings.Trim(t, `" `)))
 					}
-					res := gedcom.NodesWithTagPath(node, tags...)
-					if res == nil {
-						res = gedcom.Nodes{}
-					}
+					res := gedcom.NodesWithTagPath(node, tags...) // nil when there is none
 					out = append(out, Fact{id, p, x.encode(res)})
 				}
 			}
